@@ -298,6 +298,10 @@ class Pattern(Interp):
         res = PV(max(b.lvl, min(i.lvl, PAT)) if b.lvl < ARITH else ARITH, b.prov | i.prov, vs=b.vs or i.lvl == ARITH)
         if i.lvl == ARITH:
             res = PV(ARITH, b.prov | i.prov, vs=True)
+        # X[S][:, S]: a missing trailing index is a full slice
+        if not isinstance(idx, (TupleV, SliceV)) and b.pw is not None and b.pw[2] == "a" and not isinstance(n.slice, (ast.Tuple, ast.Slice)) and \
+                not (isinstance(idx, PV) and isinstance(idx.const, int) and not isinstance(idx.const, bool)):
+            res.half = (b.pw[1], "r", norm(n.slice), getattr(idx, "tag", None))
         # principal sub-matrix idiom  X[S, :][:, S]  keeps the (a, b) pair structure
         if isinstance(idx, TupleV) and len(idx.items) == 2 and isinstance(n.slice, ast.Tuple):
             r, c = idx.items
